@@ -93,7 +93,7 @@ pub fn run(ctx: &Ctx) -> (CheckMeta, Acc) {
         level: "exploration",
         rule: "pure: calculate_weight(duration, amount) for amounts 1..2^100 and every duration class (min, max, the interpolation knot +-1, just inside the ends, random): weight >= amount, non-decreasing in amount and in duration over (x, x+delta) pairs. e2e: incentive histories (see C11) with the factory configured for the full duration range [1 day, 1 year], 4 accounts, up to 4 concurrent flows with expansions, the permissionless TakeGlobalWeightSnapshot placed at a random point of each epoch (before, between and after position changes), repeated claims. W1 raw GLOBAL_WEIGHT == sum of raw ADDRESS_WEIGHT after every committed step; W2 sum of CurrentEpochRewardsShare <= 1 whenever the epoch's snapshot exists; W3 a second claim in an epoch pays nothing; W4 what a claim takes from a flow is bounded by the emissions of the epochs it covers (exactly one epoch: by that epoch's emission); W5 Rewards{} immediately before a successful claim == what it paid, per asset.".to_string(),
         assumptions: vec!["emissions are read from Flow.emitted_tokens (cumulative) after the claim".into()],
-        obligations: vec!["check.W0.weight>=amount".into(), "check.W0.monotone-in-amount".into(), "check.W0.monotone-in-duration".into(), "check.W1".into(), "check.W2".into(), "check.W3".into(), "check.W4".into(), "check.W5".into(), "claim_rewards.paid".into(), "close_position.before-epoch-snapshot".into()],
+        obligations: vec!["check.W0.weight>=amount".into(), "check.W0.monotone-in-amount".into(), "check.W0.monotone-in-duration".into(), "check.W1".into(), "check.W2".into(), "check.W3".into(), "check.W4".into(), "check.W5".into(), "check.W5.with-50-to-100-unclaimed-epochs".into(), "claim_rewards.paid".into(), "close_position.before-epoch-snapshot".into()],
     };
     (meta, total)
 }
